@@ -29,6 +29,7 @@ KINDS = {
     "t2": (False, ["Fa", "Fb"]),
     "t2s": (False, ["Fa", "Fa"]),
     "t3": (False, ["Fa", "Fb", "Fa"]),
+    "t11": (False, ["Fa", "Fb"] * 5 + ["Fa"]),     # two-digit field positions
     "n1": (True, ["Fa"]),
     "n2": (True, ["Fa", "Fb"]),
 }
@@ -303,6 +304,10 @@ def run(chk, tier):
         add(kinds, {"refs": True})
         if len(kinds) > 1:
             add(kinds, {"ignore": {0}, "refs": True})
+    for kinds in (("t11",), ("t11", "unit"), ("t2", "t11")):
+        add(kinds, {})
+        add(kinds, {"refs": True})
+        add(kinds, {"field_ignore": {len(kinds) - 1 if kinds[-1] == "t11" else 0: {1, 10}}, "refs": True})
     if not thorough:
         # a few 3- and 4-variant enums sharing field-type tuples
         for kinds in (["t1a", "t1a", "unit"], ["t2", "n2", "t2s"], ["unit", "unit", "t1b", "t1a"], ["t2", "t2", "t1a", "t1a"]):
